@@ -66,6 +66,26 @@ func (g *Gen) header(cexArrays []string, body string) string {
 	for _, n := range eps {
 		fmt.Fprintf(&b, "(declare-const %s %s)\n", n, g.epochs[n])
 	}
+	if cexArrays == nil {
+		// heap well-formedness: a slice stored in an unmodified (initial or havocked-epoch) heap
+		// refers to an object that already existed in that state
+		for _, n := range eps {
+			i := strings.LastIndex(n, "_")
+			if i < 0 {
+				continue
+			}
+			al := "alloc_" + n[i+1:]
+			if _, ok := g.epochs[al]; !ok {
+				continue
+			}
+			switch g.epochs[n] {
+			case "(Array Int Slice)":
+				fmt.Fprintf(&b, "(assert (forall ((wfp Int)) (! (<= (sl-ref (select %s wfp)) %s) :pattern ((select %s wfp)))))\n", n, al, n)
+			case "(Array Int (Array Int Slice))":
+				fmt.Fprintf(&b, "(assert (forall ((wfp Int) (wfi Int)) (! (<= (sl-ref (select (select %s wfp) wfi)) %s) :pattern ((select (select %s wfp) wfi)))))\n", n, al, n)
+			}
+		}
+	}
 	for _, d := range g.m.funcsDecl {
 		if cexArrays != nil {
 			b.WriteString(d.cex + "\n")
